@@ -241,9 +241,26 @@ class AsyncScope(_Scope):
                  z3.And(L.cv_is_set(it, self.cv["StateContext"]), L.cv_is_set(it, self.cv["MetricsContext"]),
                         L.cv_value(it, self.cv["MetricsContext"]) == st.get(self.mc, "_metrics"),
                         L.cv_value(it, self.cv["StateContext"]) == st.get(st.get(self.obj, "_state_context"), "_state")))
+        ev = [e for e in st.events if e[0] == "state-updated"]
         if self.disp is not None:
-            ev = [e for e in st.events if e[0] == "state-updated"]
             st.check("C08-P5:state-yielded-by-disposables-becomes-scope-state", z3.BoolVal(len(ev) == 1))
+        if len(ev) == 1 and ev[0][1] is not None:
+            arr, lo, hi = lib.seq_view(it, ev[0][1])
+            sarr, slo, shi = lib.seq_view(it, st.get(self.obj, "_state"))
+            i = st.fresh("i", I)
+            if self.disp is None:
+                st.check("C01-P6:the-scope-state-is-built-from-exactly-the-given-state",
+                         z3.And(hi - lo == shi - slo,
+                                z3.Implies(z3.And(0 <= i, i < shi - slo), z3.Select(arr, lo + i) == z3.Select(sarr, slo + i))))
+            else:
+                darr, dlo, dhi = lib.seq_view(it, g["disp_state"])
+                st.check("C01-P6:the-scope-state-is-the-given-state-followed-by-the-disposables-state(in-order)",
+                         z3.And(hi - lo == (shi - slo) + (dhi - dlo),
+                                z3.Implies(z3.And(0 <= i, i < shi - slo), z3.Select(arr, lo + i) == z3.Select(sarr, slo + i)),
+                                z3.Implies(z3.And(0 <= i, i < dhi - dlo),
+                                           z3.Select(arr, lo + (shi - slo) + i) == z3.Select(darr, dlo + i))))
+        else:
+            st.check("C01-P6:the-scope-state-is-built-once-from-the-given-state", z3.BoolVal(False))
         # ------------------------------------------------------------------ body (abstracted), exit
         self.raised = []
         et, ev_, tb = self.body_exc(it)
